@@ -8,6 +8,7 @@
 #include "PyImathStringArrayRegister.h"
 #include "PyImathStringArray.h"
 #include "PyImathExport.h"
+#include <vector>
 
 namespace PyImath {
 
@@ -172,10 +173,13 @@ StringArrayT<T>::setitem_string_vector(PyObject *index, const StringArrayT<T> &d
         PyErr_SetString(PyExc_IndexError, "Dimensions of source do not match destination");
         throw_error_already_set();
     }
-    for (size_t i=0; i<slicelength; ++i) {
-        StringTableIndex di = _table.intern(data._table.lookup(data[i]));
-        (*this)[start+i*step] = di;
-    }
+    // Read the whole source before writing: it may be a view of this
+    // array's own storage (sa[::-1] = sa).
+    std::vector<StringTableIndex> di(slicelength);
+    for (size_t i=0; i<slicelength; ++i)
+        di[i] = _table.intern(data._table.lookup(data[i]));
+    for (size_t i=0; i<slicelength; ++i)
+        (*this)[start+i*step] = di[i];
 }
 
 template<class T>
@@ -186,14 +190,8 @@ StringArrayT<T>::setitem_string_vector_mask(const FixedArray<int> &mask, const S
         throw std::invalid_argument("Fixed string-array is read-only.");
 
     size_t len = match_dimension(mask);
-    if ((size_t) data.len() == len) {
-        for (size_t i=0; i<len; ++i) {
-            if (mask[i]) {
-                StringTableIndex di = _table.intern(data._table.lookup(data[i]));
-                (*this)[i] = di;
-            }
-        }
-    } else {
+    const bool sameLength = (size_t) data.len() == len;
+    if (!sameLength) {
         size_t count = 0;
         for (size_t i=0; i<len; ++i) {
             if (mask[i]) count += 1;
@@ -203,14 +201,19 @@ StringArrayT<T>::setitem_string_vector_mask(const FixedArray<int> &mask, const S
             PyErr_SetString(PyExc_IndexError, "Dimensions of source data do not match destination either masked or unmasked");
             throw_error_already_set();
         }
-            
-        size_t dataIndex = 0;
-        for (size_t i=0; i<len; ++i) {
-            if (mask[i]) {
-                StringTableIndex di = _table.intern(data._table.lookup(data[dataIndex]));
-                (*this)[i] = di;
-                dataIndex += 1;
-            }
+    }
+
+    // Read the whole source before writing: it may be a view of this
+    // array's own storage.
+    std::vector<StringTableIndex> di(data.len());
+    for (size_t i=0; i<di.size(); ++i)
+        di[i] = _table.intern(data._table.lookup(data[i]));
+
+    size_t dataIndex = 0;
+    for (size_t i=0; i<len; ++i) {
+        if (mask[i]) {
+            (*this)[i] = di[sameLength ? i : dataIndex];
+            dataIndex += 1;
         }
     }
 }
